@@ -333,6 +333,45 @@ MiscChecks ==
       out |-> <<"ToString.Pt", "Pt<1,2>", "ToString.Pt", "Pt<2,0>">>],
      [tmpl |-> "for-int", iface |-> "Iterable", ty |-> "int", src |-> <<"for d4 in 2 {", "println(d4)", "}">>, out |-> <<"0", "1">>] >>
 
+\* two modules that each declare a type named Tw (different layouts, own implementations), used side by side through
+\* namespace prefixes: the instances of one generic function / interface method for the two types are different instances
+TwinA == << "type Tw = { a: int }",
+            "implement ToString for Tw {", "  fn str(self) {", "    println(\"ToString.twina.Tw\")", "    \"A\" .. self.a", "  }", "}",
+            "implement Equal for Tw {", "  fn equal(x, y) {", "    println(\"Equal.twina.Tw\")", "    x.a == y.a", "  }", "}" >>
+TwinB == << "type Tw = { s: string, k: int, z: string }",
+            "implement ToString for Tw {", "  fn str(self) {", "    println(\"ToString.twinb.Tw\")", "    \"B\" .. self.s .. self.k .. self.z", "  }", "}",
+            "implement Equal for Tw {", "  fn equal(x, y) {", "    println(\"Equal.twinb.Tw\")", "    x.k == y.k", "  }", "}" >>
+TwinChecks ==
+  LET a1 == "twina.Tw(1)"  a2 == "twina.Tw(2)"  b1 == "twinb.Tw(\"q\", 1, \"w\")"  b2 == "twinb.Tw(\"r\", 1, \"v\")"
+      ck(tmpl, iface, ty, src, out) == [tmpl |-> tmpl, iface |-> iface, ty |-> ty, src |-> src, out |-> out]
+  IN << ck("println", "ToString", "twina.Tw", <<"println(" \o a1 \o ")">>, <<"ToString.twina.Tw", "A1">>),
+        ck("println", "ToString", "twinb.Tw", <<"println(" \o b1 \o ")">>, <<"ToString.twinb.Tw", "Bq1w">>),
+        ck("show", "ToString", "twina.Tw", <<"println(show(" \o a2 \o "))">>, <<"ToString.twina.Tw", "<A2>">>),
+        ck("show", "ToString", "twinb.Tw", <<"println(show(" \o b2 \o "))">>, <<"ToString.twinb.Tw", "<Br1v>">>),
+        ck("same", "Equal", "twina.Tw", <<"println(same(" \o a1 \o ", " \o a2 \o "))">>, <<"Equal.twina.Tw", "false">>),
+        ck("same", "Equal", "twinb.Tw", <<"println(same(" \o b1 \o ", " \o b2 \o "))">>, <<"Equal.twinb.Tw", "true">>),
+        ck("op==", "Equal", "twina.Tw", <<"println(" \o a1 \o " == " \o a1 \o ")">>, <<"Equal.twina.Tw", "true">>),
+        ck("op==", "Equal", "twinb.Tw", <<"println(" \o b1 \o " != " \o b2 \o ")">>, <<"Equal.twinb.Tw", "false">>),
+        ck("id", "none", "twina.Tw", <<"println(id(" \o a2 \o "))">>, <<"ToString.twina.Tw", "A2">>),
+        ck("id", "none", "twinb.Tw", <<"println(id(" \o b1 \o "))">>, <<"ToString.twinb.Tw", "Bq1w">>),
+        ck("show2", "ToString", "twina.Tw x twinb.Tw", <<"println(show2(" \o a1 \o ", " \o b2 \o "))">>,
+           <<"ToString.twina.Tw", "ToString.twinb.Tw", "<A1><Br1v>">>),
+        ck("showall", "ToString", "twinb.Tw", <<"let lb: array<twinb.Tw> = [" \o b1 \o ", " \o b2 \o "]", "println(showall(lb))">>,
+           <<"ToString.twinb.Tw", "ToString.twinb.Tw", "<Bq1w><Br1v>">>),
+        ck("showall", "ToString", "twina.Tw", <<"let la: array<twina.Tw> = [" \o a1 \o ", " \o a2 \o "]", "println(showall(la))">>,
+           <<"ToString.twina.Tw", "ToString.twina.Tw", "<A1><A2>">>) >>
+\* the same with the array literal as the argument (no annotation): one program per check, keyed as a defect family
+TwinKeyed ==
+  LET a1 == "twina.Tw(1)"  a2 == "twina.Tw(2)"  b1 == "twinb.Tw(\"q\", 1, \"w\")"  b2 == "twinb.Tw(\"r\", 1, \"v\")"
+      ck(tmpl, iface, ty, src, out) == [tmpl |-> tmpl, iface |-> iface, ty |-> ty, src |-> src, out |-> out,
+                                        key |-> "C22|array-literal-of-qualified-constructor-calls|type-not-inferred"]
+  IN << ck("showall", "ToString", "twinb.Tw", <<"println(showall([" \o b1 \o ", " \o b2 \o "]))">>,
+           <<"ToString.twinb.Tw", "ToString.twinb.Tw", "<Bq1w><Br1v>">>),
+        ck("showall", "ToString", "twina.Tw", <<"println(showall([" \o a1 \o ", " \o a2 \o "]))">>,
+           <<"ToString.twina.Tw", "ToString.twina.Tw", "<A1><A2>">>),
+        ck("println", "ToString", "array<twina.Tw>", <<"println([" \o a1 \o ", " \o a2 \o "])">>,
+           <<"ToString.twina.Tw", "ToString.twina.Tw", "[ A1, A2 ]">>) >>
+
 \* ---------------------------------------------------------------- programs
 \* checks are separated by marker lines "#i" so that the observation can be compared check by check
 RECURSIVE BodyOf(_, _)
@@ -341,7 +380,9 @@ BodyOf(cs, i) == IF i > Len(cs) THEN <<>> ELSE <<"println(\"#" \o ToString(i) \o
 \* layout: "single" = everything in main; "lib" = types and implementations in lib.abra; "libgen" = generic functions too
 FilesOf(layout, cs) ==
   LET body == BodyOf(cs, 1)
-  IN CASE layout = "single" -> ("main.abra" :> LibLines \o GenLines \o body)
+  IN CASE layout = "twin" -> ("main.abra" :> <<"use twina as twina", "use twinb as twinb">> \o LibLines \o GenLines \o body)
+                             @@ ("twina.abra" :> TwinA) @@ ("twinb.abra" :> TwinB)
+       [] layout = "single" -> ("main.abra" :> LibLines \o GenLines \o body)
        [] layout = "lib" -> ("main.abra" :> <<"use lib">> \o GenLines \o body) @@ ("lib.abra" :> LibLines)
        [] layout = "libgen" -> ("main.abra" :> <<"use lib", "use gen">> \o body) @@ ("lib.abra" :> LibLines)
                                @@ ("gen.abra" :> <<"use lib">> \o GenLines)
